@@ -22,7 +22,8 @@ import (
 
 // ---- C17: a failing run changes no files; exit status reflects the outcome ----
 
-var c17States = []string{"ok", "directive", "signature", "conversion", "late-setting"}
+// render: everything up to the conversion succeeds, the output file cannot be rendered (raw code that is not Go)
+var c17States = []string{"ok", "directive", "signature", "conversion", "late-setting", "render"}
 
 func c17Converter(pkg, name, state string) string {
 	doc := "// goverter:converter\n"
@@ -40,6 +41,8 @@ func c17Converter(pkg, name, state string) string {
 		method = "\tConvert(source In) OutX\n"
 	case "late-setting":
 		method = "\t// goverter:ignore Nope\n\tConvert(source In) Out\n"
+	case "render":
+		doc += "// goverter:output:raw func broken( {\n"
 	}
 	return fmt.Sprintf("package %s\n\n%stype %s interface {\n%s}\n", pkg, doc, name, method)
 }
@@ -252,7 +255,7 @@ func RunC17(run *ev.Run) {
 	run.Cov["traces_validated_against_impl"] = states + na
 	run.Cov["exhaustive"] = !run.Harness
 	run.Cov["converters"] = nconv
-	run.Cov["rule"] = fmt.Sprintf("(i) %d converters over 2-3 packages, each in one of the states %v (every subset faulty, at directive, signature, conversion and late-setting stage) x pre-existing outputs {none, present, present and corrupted}: real CLI run; a faulty run must exit 1 with a diagnostic on stderr and leave the tree byte-identical, a good run must exit 0 and every output file must equal the in-memory result; (ii) every argv of length <=k over the token menu against an independent model of the flag grammar: help => exit 0, usage error => exit 1 with text, neither may touch the tree; generate => exit 0 or 1, never a crash, and exit 1 leaves the tree unchanged; (iii) output locations taken by something else (file path is a directory, directory path is a file, output:file names an existing directory; alone and next to an unobstructed package in both pattern orders): exit 0 only if the converter's file was really written", nconv, c17States)
+	run.Cov["rule"] = fmt.Sprintf("(i) %d converters over 2-3 packages, each in one of the states %v (every subset faulty, at directive, signature, conversion, late-setting and rendering stage) x pre-existing outputs {none, present, present and corrupted}: real CLI run; a faulty run must exit 1 with a diagnostic on stderr and leave the tree byte-identical, a good run must exit 0 and every output file must equal the in-memory result; (ii) every argv of length <=k over the token menu against an independent model of the flag grammar: help => exit 0, usage error => exit 1 with text, neither may touch the tree; generate => exit 0 or 1, never a crash, and exit 1 leaves the tree unchanged; (iii) output locations taken by something else (file path is a directory, directory path is a file, output:file names an existing directory; alone and next to an unobstructed package in both pattern orders): exit 0 only if the converter's file was really written", nconv, c17States)
 }
 
 func faultClass(combo []string) string {
